@@ -56,14 +56,14 @@ def cases(ctx):
                             i += 1
                             if ctx.mine(i):
                                 yield {'tool': tool, 'a': a, 'b': b, 'fin': fin, 'fout': fout, 'salt': rng.randint(0, 10 ** 9),
-                                       'entry': ('function', 'cli_run', 'parser')[(rep + i) % 3]}
+                                       'entry': ('function', 'cli_run', 'parser')[(rep + i) % 3], 'no_o': bool((i // 3) % 2)}
         for direction in ('ebcdic', 'ascii'):
             for blocked in (True, False):
                 for tool in ('mideu convert', 'paramconv'):
                     i += 1
                     if ctx.mine(i):
                         yield {'tool': tool, 'direction': direction, 'blocked': blocked, 'salt': rng.randint(0, 10 ** 9),
-                               'entry': ('function', 'cli_run', 'parser')[(rep + i) % 3]}
+                               'entry': ('function', 'cli_run', 'parser')[(rep + i) % 3], 'no_o': bool((i // 3) % 2)}
     # inputs of more than 1 MiB (buffering thresholds) and the tools' documented default arguments
     for tool in ('mci_ipm_encode', 'mci_ipm_param_encode', 'mideu convert', 'paramconv'):
         i += 1
@@ -168,9 +168,18 @@ def run_tool(ctx, case, tool, data, a, b, fin, fout, tag):
             elif entry == 'parser':
                 # through the tool's own argument parser, the way the console script runs; --no1014blocking is the documented
                 # shorthand for vbs in and out
-                argv = [src, '-o', dst, '--in-encoding', a, '--out-encoding', b]
+                argv = [src, '--in-encoding', a, '--out-encoding', b]
+                if not case.get('no_o'):
+                    argv += ['-o', dst]
+                else:                      # no -o: the documented output name is the input name + '.out'
+                    ctx.count('parser route without -o: %s' % tool)
+                    if os.path.exists(src + '.out'):
+                        os.unlink(src + '.out')
                 argv += ['--no1014blocking'] if (fin, fout) == ('vbs', 'vbs') else ['--in-format', fin, '--out-format', fout]
                 mod.cli_run(**vars(mod.cli_parser().parse_args(argv)))
+                if '-o' not in argv:
+                    with open(src + '.out', 'rb') as f:
+                        return f.read()
             elif use_defaults:
                 mod.cli_run(in_filename=src, out_filename=dst)
             else:
@@ -187,8 +196,15 @@ def run_tool(ctx, case, tool, data, a, b, fin, fout, tag):
             with open(src + '.out', 'rb') as f:
                 return f.read()
         if entry == 'parser' and tool == 'paramconv':
-            ctx.t_paramconv.cli_entry([src, '-o', dst, '-s', sourceformat] + ([] if blocked else ['--no1014blocking']))
-            with open(dst, 'rb') as f:
+            if not case.get('no_o'):
+                ctx.t_paramconv.cli_entry([src, '-o', dst, '-s', sourceformat] + ([] if blocked else ['--no1014blocking']))
+                with open(dst, 'rb') as f:
+                    return f.read()
+            ctx.count('parser route without -o: %s' % tool)    # the way the command is documented: paramconv FILE
+            if os.path.exists(src + '.out'):
+                os.unlink(src + '.out')
+            ctx.t_paramconv.cli_entry([src, '-s', sourceformat] + ([] if blocked else ['--no1014blocking']))
+            with open(src + '.out', 'rb') as f:
                 return f.read()
         if tool == 'mideu convert':
             if entry == 'function':
@@ -336,6 +352,9 @@ def require(m):
         for entry in ('function', 'cli_run', 'parser'):
             if '%s/%s' % (tool, entry) not in te:
                 reasons.append('%s never run through %s' % (tool, entry))
+    for tool in ('mci_ipm_encode', 'mci_ipm_param_encode', 'paramconv'):
+        if not m['counters'].get('parser route without -o: %s' % tool) and not m['violations']:
+            reasons.append('%s never run from its argument parser without -o' % tool)
     if not m['counters'].get('conversions of inputs over 1 MiB'):
         reasons.append('no input over 1 MiB converted')
     if m['counters'].get('unblocked parameter files with fill-valued bytes where a blocked file has its fill', 0) < 3 and not m['violations']:
